@@ -19,7 +19,17 @@ def can_sources():
     return vlib.lib_sources() + vlib.core_sources() + [os.path.join(VERIF, 'mon', 'canmon.c')]
 
 
+_vb = {}
+
+
 def build_vssmon(work, variant='asan'):
+    key = (work.dir, variant)
+    if key not in _vb:
+        _vb[key] = _build_vssmon(work, variant)
+    return _vb[key]
+
+
+def _build_vssmon(work, variant='asan'):
     if variant == 'asan':
         return vlib.compile_many(work, 'vssmon_asan', vss_sources(), vlib.ASAN_FLAGS)
     return vlib.compile_many(work, 'vssmon_plain', vss_sources(), ['-O0', '-g'])
@@ -63,6 +73,7 @@ def c06(tier, seed):
         nseeds = 8 if tier == 'quick' else 64
         jobs = [dict(VP_SEED=int(seed) * 100 + i, VP_REPS=R, VP_PLACE=i % 8) for i in range(nseeds)]
         vlib.run_parallel(lambda e: vlib.run_monitor(obs, b, e, tag='can'), jobs)
+        vlib.run_variant(obs, vlib.compile_ilp32(work, 'canmon_ilp32', can_sources()), [dict(VP_SEED=int(seed) + 77, VP_REPS=2, VP_PLACE=pl) for pl in (0, 2)], seed, 'ilp32')
         cov = dict(distinct_nontrivial=int(obs.stats.get('nontrivial', 0)) // nseeds,
                    long_lengths_observed=int(obs.stats.get('can.long_lengths_observed', 0)),
                    long_lengths_model_mismatch=int(obs.stats.get('can.long_lengths_model_mismatch', 0)),
@@ -88,12 +99,15 @@ def c07(tier, seed):
         b = build_vssmon(work)
         N = 48000 if tier == 'quick' else 24000000
         run_split(obs, b, 'encode', N, seed)
+        # an unoptimised (Debug-style) build of the same sources: conversions the optimiser folds away exist only there
+        run_split(obs, build_vssmon(work, 'plain'), 'encode', N // 4, int(seed) + 1, nproc=8, extra=dict(VP_CANARY=1))
         cov = dict(distinct_nontrivial=int(obs.stats.get('nontrivial', 0)),
                    rule='%d generated messages: address mode 0..3 x all 256 datatype codes (24 defined, reserved ones revisited less '
                         'often) x static ids {0,1,2^32-1,...} / interop paths of length classes {0..15 by residue, 255, 256, 257, '
                         'random <= 5000, 65533} x values (scalars: extremes, byte-lane markers, NaN payloads, +-0, subnormals, '
                         'infinities; strings/arrays of length classes 0,1,2,3,13,255..257, random, maximum whole-element count); header '
-                        'fields, SetVssPath and SetVssData each followed by a whole-arena comparison with the reference encoding.  '
+                        'fields, SetVssPath and SetVssData each followed by a whole-arena comparison with the reference encoding; a quarter of the '
+                        'corpus again in an unoptimised gcc -O0 build.  '
                         'Non-trivial: a value of non-zero encoded size was written and matched, or a reserved mode wrote nothing.' % N)
         return vlib.finish('C07', 'exploration', tier, seed, obs, cov, ASSUME, t0, min_evals=20000)
     finally:
@@ -109,6 +123,7 @@ def c08(tier, seed):
         N = 32000 if tier == 'quick' else 8000000
         for place in ([0, 1, 3, 6] if tier == 'quick' else range(8)):
             run_split(obs, b, 'decode', N // (4 if tier == 'quick' else 8), seed, nproc=16 if tier != 'quick' else 4, extra=dict(VP_PLACE=place))
+        run_split(obs, build_vssmon(work, 'plain'), 'decode', N // 8, int(seed) + 1, nproc=8, extra=dict(VP_CANARY=1, VP_PLACE=5))
         if tier == 'thorough':
             memcheck(obs, work, 'decode', 1500, seed)
         cov = dict(distinct_nontrivial=int(obs.stats.get('nontrivial', 0)),
